@@ -1,8 +1,11 @@
 package string_helper
 
-import "sort"
 
 func StringArrayContains(s []string, searchterm string) bool {
-	i := sort.SearchStrings(s, searchterm)
-	return i < len(s) && s[i] == searchterm
+	for _, v := range s {
+		if v == searchterm {
+			return true
+		}
+	}
+	return false
 }
